@@ -32,15 +32,16 @@ add("C01", "other",
     "instruction), failing statements included, each statement gives Sem's value or error class, binds Sem's globals, writes "
     "nothing and leaves the machine ready for the next (C01_simple_sessions_partial). And the whole while-language over "
     "globals (StmtSem/StmtRel/StmtVM/CallVM/StmtCorrect/StmtTop.v): blocks, if, if/else and while with pure conditions, nested without bound, "
-    "and user-level calls of the built-ins write(e), toa(e), aton(e) (the CALL/RET protocol: frame, closure stack, return address; "
-    "the written output is part of the world a statement acts on), "
+    "and user-level calls of the built-ins write(e), toa(e), aton(e), read() as statements and as right sides of assignments "
+    "(the CALL/RET protocol: frame, closure stack, return address; the written output and the unread input are part of the world "
+    "a statement acts on), "
     "compiled in value position and in discarded position (both code-generation strategies of each construct, negated-condition "
     "folding, jumps and back-patching, the last-value slot of a value-position while): for every fuel for which the fuelled "
     "semantics ssem - which Sem.eval computes with the same fuel - defines a statement, the compiled code run by the VM model "
     "ends with that value or error class and that world (globals, output written, input left), in REPL mode and file mode, over whole sessions "
     "(C01_statement_sessions_partial; C01_statement_sem_vs_vm ties Sem.eval and the run through worlds that agree off the built-in "
-    "names, which the two sides bind to different representations). Not proved: the simulation for calls of user functions, read/exit, "
-    "built-in calls as operands, generators, locals/closures "
+    "names, which the two sides bind to different representations). Not proved: the simulation for calls of user functions, exit, "
+    "built-in calls nested in expressions, generators, locals/closures "
     "(full statement: C01_compile_correct_statement). The property is "
     "decided each run by differential testing: generated sessions are run on the real code and compared, inside Coq, with Sem "
     "(property oracle) and with the compiler/VM model (correspondence; bytecode-level agreement of the compiler model was "
